@@ -126,10 +126,10 @@ def run_batch(obs, jobs, timeout_s, log):
     return results
 
 
-def playback(o, timeout_s, log):
+def playback(o, timeout_s, log, want_descriptions=None):
     """Re-run one failing harness with concrete playback; returns list of byte lists or None."""
     registry.generate()
-    h = "kani_gen::" + registry.harness_name(o["name"])
+    h = "kani_gen::" + registry.harness_name(o["name"]) + "_playback"
     cmd = ["cargo", "kani", "--lib", "-Z", "stubbing", "-Z", "unstable-options", "-Z", "concrete-playback",
            "--concrete-playback=print", "--exact", "--harness", h, "--output-format", "terse",
            "--harness-timeout", str(int(timeout_s))]
@@ -140,12 +140,22 @@ def playback(o, timeout_s, log):
     except subprocess.TimeoutExpired:
         return None, "playback timed out"
     out = p.stdout
-    m = re.search(r"let concrete_vals: Vec<Vec<u8>> = vec!\[(.*?)\n\s*\];", out, re.S)
-    if not m:
+    # one generated test per failed check AND per satisfied cover: take the test of a failed check
+    tests = []
+    for tm in re.finditer(r"/// Check for `(\w+)`: \"(.*?)\"\n.*?let concrete_vals: Vec<Vec<u8>> = vec!\[(.*?)\n\s*\];", out, re.S):
+        kind, desc, body = tm.group(1), tm.group(2).strip('"'), tm.group(3)
+        vecs = []
+        for vm in re.finditer(r"vec!\[([0-9, ]*)\]", body):
+            b = vm.group(1).strip()
+            vecs.append([int(x) for x in b.split(",") if x.strip()] if b else [])
+        tests.append((kind, desc, vecs))
+    if not tests:
         return None, "\n".join(out.splitlines()[-30:])
-    vecs = []
-    for vm in re.finditer(r"vec!\[([0-9, ]*)\]", m.group(1)):
-        body = vm.group(1).strip()
-        vecs.append([int(x) for x in body.split(",") if x.strip()] if body else [])
-    desc = re.findall(r"/// Check for `\w+`: \"(.*?)\"", out)
-    return vecs, "; ".join(desc)
+    want = set(want_descriptions or [])
+    for kind, desc, vecs in tests:
+        if kind != "cover" and (desc in want or desc.strip('"') in want):
+            return vecs, desc
+    for kind, desc, vecs in tests:
+        if kind != "cover":
+            return vecs, desc
+    return None, "only cover tests were generated"
